@@ -11,9 +11,11 @@ class OverPull(Exception):
     pass
 
 def lazy_prefix(code, n, a0, ds, bound, model):
+    return lazy_prefix_v(code, n, list(itertools.accumulate([a0] + list(ds))), bound, model)
+
+def lazy_prefix_v(code, n, V, bound, model):
     """first n items of the transformation applied to the infinite source a0, a0+d1, a0+d1+d2, ...; the source raises once
     more than `bound` items are pulled, so a transformation that forces the source fails instead of hanging"""
-    V = list(itertools.accumulate([a0] + list(ds)))
     pulls = [0]
     def src():
         for x in V[:bound]:
@@ -54,10 +56,14 @@ def build(tier, seed, known):
             fam = "lazy:" + name
             pres = ["len(ds) == %d" % (need - 1), "all(d == 1 for d in ds)" if e["source"] == "consec" else "all(d > 0 for d in ds)"] + ["not (%s)" % x for x in known_exclusions(known, fam)]
             fn = "t_%s_n%d" % (name, n)
-            src += fn_src(fn, "a0: int, ds: List[int]", pres, ["return lazy_prefix(CODE_%s, %d, a0, ds, %d, MODEL_%s)" % (name, n, b, name)])
+            if e["source"] == "str":
+                pres = ["len(cs) == %d" % need] + pres[2:]
+                src += fn_src(fn, "cs: str", pres, ["return lazy_prefix_v(CODE_%s, %d, [c for c in cs], %d, MODEL_%s)" % (name, n, b, name)])
+            else:
+                src += fn_src(fn, "a0: int, ds: List[int]", pres, ["return lazy_prefix(CODE_%s, %d, a0, ds, %d, MODEL_%s)" % (name, n, b, name)])
             plan.obs.append(Ob(fn, fam, "m", fn, 120 if tier == "quick" else 300, "confirmed",
                                "first %d items of `%s` (%s) on an infinite strictly increasing source: equal to the model, at most %d items pulled" % (n, e["code"], name, b),
-                               "n = %d; source values symbolic (%s), unbounded ints" % (n, "consecutive integers from a symbolic start" if e["source"] == "consec" else "arbitrary positive increments")))
+                               "n = %d; source values symbolic (%s), unbounded ints" % (n, "consecutive integers from a symbolic start" if e["source"] == "consec" else ("one-character strings, any Unicode" if e["source"] == "str" else "arbitrary positive increments"))))
     src += fn_src("twin_cumsum", "a0: int, ds: List[int]", ["len(ds) == 8", "all(d > 0 for d in ds)"], ["return lazy_prefix(CODE_cumulative_sums, 3, a0, ds, 3, MODEL_cumulative_sums)"])
     plan.obs.append(Ob("twin_cumsum", "lazy:cumulative_sums", "m", "twin_cumsum", 120, "refuted", "reachability twin (declared bound one too small: the over-pull must be reported)"))
     plan.modules["m"] = src
@@ -66,6 +72,6 @@ def build(tier, seed, known):
     plan.rule = ("skeleton = (catalogued transformation or composition, n): %d entries x n = 0..%d; the solver quantifies over the source values (every strictly increasing integer sequence: symbolic start and positive increments); "
                  "the source raises when more than the declared bound is pulled, so every path terminates" % (len(cat), nmax))
     plan.assumptions = ["declared pull bounds = pulls measured on the pinned tree + 1 (c14_catalogue.json, frozen)", "filter-like entries use consecutive integers from a symbolic start so that a linear bound exists"]
-    plan.outside = ["n > %d ('terminates for every n' is not claimed)" % nmax, "transformations not in the catalogue", "non-integer items"]
+    plan.outside = ["n > %d ('terminates for every n' is not claimed)" % nmax, "transformations not in the catalogue", "items other than ints and short strings"]
     plan.extra_coverage = {"catalogue_entries": len(cat)}
     return plan
